@@ -29,6 +29,9 @@ type xNode struct {
 	Kids  []*xNode
 }
 
+// number of start tags with a line break inside, seen by parseXMLTree (moved into the distribution by the suites)
+var xmlLineBreakInTag int
+
 var reCharRef = regexp.MustCompile(`&#(x[0-9a-fA-F]+|[0-9]+);`)
 
 // parseXMLTree reads the first element of doc (what xml.Decoder.Decode consumes).  simple reports
@@ -71,11 +74,24 @@ func parseXMLTree(doc []byte) (root *xNode, simple bool, err error) {
 			}
 			after := dec.InputOffset()
 			if before >= 0 && after <= int64(len(doc)) && bytes.IndexByte(doc[before:after], '\n') >= 0 {
-				// the raw slice may start with character data already delivered; look at the tag only
+				// a line break inside the tag: between attributes it is white space (the reader replaces it by a blank when it
+				// strips the indentation of a paragraph's content); inside a quoted value the stripping changes the value,
+				// which the tree does not show: only that is outside the faithful domain
 				raw := doc[before:after]
-				if i := bytes.LastIndexByte(raw, '<'); i >= 0 && bytes.IndexByte(raw[i:], '\n') >= 0 {
-					simple = false
+				if i := bytes.LastIndexByte(raw, '<'); i >= 0 {
+					var q byte
+					for _, c := range raw[i:] {
+						switch {
+						case q != 0 && c == q:
+							q = 0
+						case q == 0 && (c == '"' || c == '\''):
+							q = c
+						case q != 0 && c == '\n':
+							simple = false
+						}
+					}
 				}
+				xmlLineBreakInTag++
 			}
 			if len(stack) == 0 {
 				if root != nil {
